@@ -355,6 +355,14 @@ impl Optimizer {
                         let refs_left = pred_cols.iter().any(|&c| c < left_cols);
                         let refs_right = pred_cols.iter().any(|&c| c >= left_cols);
 
+                        // Offset that maps the predicate's columns into the right input,
+                        // if it only references the right side
+                        let right_offset = if refs_right && !refs_left {
+                            Self::right_pushdown_offset(&pred_cols, left_cols, &right_keys)
+                        } else {
+                            None
+                        };
+
                         if refs_left && !refs_right {
                             // Predicate only references left side - push down to left
                             IRNode::Join {
@@ -367,11 +375,11 @@ impl Optimizer {
                                 right_keys,
                                 output_schema,
                             }
-                        } else if refs_right && !refs_left {
+                        } else if let Some(offset) = right_offset {
                             // Predicate only references right side - push down to right
                             // Need to adjust column indices
                             let adjusted_predicate =
-                                Self::adjust_predicate_columns(&predicate, -(left_cols as i32));
+                                Self::adjust_predicate_columns(&predicate, offset);
                             IRNode::Join {
                                 left,
                                 right: Box::new(IRNode::Filter {
@@ -471,6 +479,60 @@ impl Optimizer {
 
             other => other,
         }
+    }
+
+    /// Offset that moves a predicate over join-output columns into the right input,
+    /// or `None` if no single offset does.
+    ///
+    /// The join output is the left columns followed by the right columns that are
+    /// not join keys, so output position `left_cols + p` shows the p-th non-key
+    /// column of the right input. Subtracting `left_cols` alone names a different
+    /// column whenever a join key sits at or before it.
+    fn right_pushdown_offset(
+        pred_cols: &[usize],
+        left_cols: usize,
+        right_keys: &[usize],
+    ) -> Option<i32> {
+        let mut offset: Option<i32> = None;
+        for c in pred_cols {
+            if *c < left_cols || *c > i32::MAX as usize {
+                return None;
+            }
+            let right_col = Self::nth_non_key_column(right_keys, *c - left_cols)?;
+            if right_col > i32::MAX as usize {
+                return None;
+            }
+            let this_offset = right_col as i32 - *c as i32;
+            match offset {
+                None => offset = Some(this_offset),
+                Some(prev) => {
+                    if prev != this_offset {
+                        return None;
+                    }
+                }
+            }
+        }
+        offset
+    }
+
+    /// Index of the `n`-th (0-based) column that is not in `keys`.
+    fn nth_non_key_column(keys: &[usize], n: usize) -> Option<usize> {
+        if n > i32::MAX as usize || keys.len() > i32::MAX as usize {
+            return None;
+        }
+        let mut remaining = n;
+        let mut col = 0;
+        // at most keys.len() of the columns scanned are keys
+        while col <= n + keys.len() {
+            if !keys.contains(&col) {
+                if remaining == 0 {
+                    return Some(col);
+                }
+                remaining -= 1;
+            }
+            col += 1;
+        }
+        None
     }
 
     /// Extract column indices referenced by a predicate
